@@ -77,7 +77,61 @@ pub fn check_file(f: &SrcFile, debug: bool, st: &mut Stats) -> Result<(), String
             }
         }
     }
-    let _ = st;
+    // a second user of the same external labels: whatever the order in which the two users and the definer are
+    // linked, every use ends up holding the label's address; while the definer is missing, loading fails
+    if !exts.is_empty() {
+        let mut u2 = String::new();
+        let mut uses2: BTreeMap<u16, String> = BTreeMap::new();
+        for e in &exts {
+            u2.push_str(&format!(".external {e}\n"));
+        }
+        u2.push_str(".orig xD000\n");
+        for (i, e) in exts.iter().enumerate() {
+            u2.push_str(&format!(".fill {e}\n"));
+            uses2.insert(0xD000 + i as u16, e.clone());
+        }
+        u2.push_str(".end\n");
+        let asm = |src: &str| -> Result<ObjectFile, String> {
+            let ast = parse_ast(src).map_err(|e| format!("helper file: {e:?}"))?;
+            if debug { assemble_debug(ast, src) } else { lc3_ensemble::asm::assemble(ast) }.map_err(|e| format!("helper file: {e:?}"))
+        };
+        let (u2o, d) = (asm(&u2)?, asm(&src)?);
+        let link = |x: &ObjectFile, y: &ObjectFile, what: &str| -> Result<ObjectFile, String> {
+            no_panic("link", || ObjectFile::link(x.clone(), y.clone()))?.map_err(|e| format!("{what}: link failed: {:?}", e.kind))
+        };
+        let all_uses: Vec<(u16, String)> = uses.iter().chain(uses2.iter()).map(|(a, l)| (*a, l.clone())).collect();
+        let orders: [(&str, [usize; 3], bool); 6] = [
+            ("(file+user2)+definer", [0, 1, 2], true),
+            ("definer+(file+user2)", [0, 1, 2], false),
+            ("(user2+file)+definer", [1, 0, 2], true),
+            ("(file+definer)+user2", [0, 2, 1], true),
+            ("user2+(definer+file)", [2, 0, 1], false),
+            ("(definer+user2)+file", [2, 1, 0], true),
+        ];
+        let objs = [&o, &u2o, &d];
+        for (name, ix, inner_first) in orders {
+            let inner = link(objs[ix[0]], objs[ix[1]], name)?;
+            if ix[2] == 2 {
+                // both users linked, the definer is still missing
+                match load(&inner)? {
+                    Err(m) if m.starts_with("UnresolvedExternal") => {}
+                    other => return Err(format!("{name}: the two users linked without the definer load with {other:?} instead of UnresolvedExternal")),
+                }
+            }
+            let l = if inner_first { link(&inner, objs[ix[2]], name)? } else { link(objs[ix[2]], &inner, name)? };
+            let img: BTreeMap<u16, Option<u16>> = l.addr_iter().collect();
+            for (a, lab) in &all_uses {
+                let want = def_addr[lab];
+                if img.get(a) != Some(&Some(want)) {
+                    return Err(format!("{name} (debug symbols: {debug}): the .fill word at x{a:04X} holds {:?}, the label {lab} is at x{want:04X}", img.get(a)));
+                }
+            }
+            if let Err(m) = load(&l)? {
+                return Err(format!("{name}: every external label is defined, loading still fails: {m}"));
+            }
+        }
+        st.class("two-users-and-definer-in-6-orders");
+    }
     Ok(())
 }
 
@@ -144,13 +198,13 @@ pub fn describe(tape: &[u32]) -> Value {
 pub fn run(ctx: &Ctx) -> Outcome {
     let mut out = Outcome::new(
         "generated files with .external declarations placed before, between and after their .fill uses, assembled with debug symbols (and without, unless that variant is a listed known finding); \
-         loading must fail with UnresolvedExternal when a .fill word refers to an undefined external; after linking a definer (both orders, definer with/without debug symbols) every such word holds the label's address and loading succeeds; \
+         loading must fail with UnresolvedExternal when a .fill word refers to an undefined external; after linking a definer (both orders, definer with/without debug symbols) every such word holds the label's address and loading succeeds; with a second user file of the same labels, 6 orders/bracketings of file, user and definer (users linked first must still fail to load, the complete link must hold the addresses in every use); \
          non-trivial = file has an external use whose declaration comes after it; distinct by source text",
     );
     let cfg = TapeCfg::new(ctx, 2500, 60_000, 1200);
     out.shards = cfg.shards;
     out.absorb(tape_search(ctx, "main", &cfg, check, describe));
-    out.essential = ["has-external-use", "declaration-after-use", "declaration-before-use"].iter().map(|s| s.to_string()).collect();
+    out.essential = ["has-external-use", "declaration-after-use", "declaration-before-use", "two-users-and-definer-in-6-orders"].iter().map(|s| s.to_string()).collect();
     out.assumptions.push("the variant 'assembled without debug symbols and uses an external' is excluded while listed as known finding C21/nodebug-external-dropped; its witness is replayed on every run".into());
     out
 }
